@@ -531,7 +531,7 @@ def t3_pipeline(tier, seed):
                 and not any(x.startswith(("C01.", "C02.", "C03.")) for x in v["failed"])}
     cases = [c for c in read_ndjson(g["cases_path"]) if c["case"] in ok_cases and t3_compilable(c["runs"][0]["reg"])]
     rnd.shuffle(cases)
-    cases = cases[: 120 if tier == "quick" else 1500]
+    cases = cases[: 48 if tier == "quick" else 1500]
     recs = []
     for i, c in enumerate(cases):
         recs.append({"case": i, "fam": c["fam"], "orig": c["case"], "runs": [{"reg": c["runs"][0]["reg"], "settings": T3_SETTINGS}]})
@@ -667,7 +667,7 @@ def check_genprop(prop, prefixes, nontrivial, rule, tier, seed, domain=lambda v:
     res.nontrivial = sum(1 for v in verdicts if nontrivial(v))
     res.drift = sum(1 for v in verdicts if v["drift"])
     res.extra.update({"families": g["fam_counts"], "design_level": g["design"], "mc_actions": g["mc_actions"], "e0_programs": g["e0"]})
-    if prop in ("C01", "C02") and (tier == "thorough" or os.environ.get("VERIF_T3") == "1"):
+    if prop in ("C01", "C02"):
         t3 = t3_pipeline(tier, seed)
         res.add_mc(t3["tv"])
         t3cases = None
